@@ -24,6 +24,14 @@ def gen_case(rng):
         labels, terms, matrix = pure.gen_model(rng, "PUBO")
         return {"op": "bounds", "fn": "_get_bounds", "spin": False, "kind": "PUBO", "labels": labels, "terms": terms,
                 "bmode": rng.choice(["none", "nonenone", "lo", "hi"]), "scale": rng.choice([0, 0, -40, -20, 20])}
+    if rng.random() < 0.06:
+        # very large exact coefficients c * 2^53 + d (Python ints): the enclosure must hold to the last unit
+        spin = rng.random() < 0.5
+        kind = rng.choice(["dict", "PUSO" if spin else "PUBO", "PUSOMatrix" if spin else "PUBOMatrix"])
+        labels, terms, matrix = pure.gen_model(rng, kind, raw_dict_tricks=False, allow_empty=False, halves_p=0)
+        big = {k: (rng.choice([-2, -1, 1, 2]), rng.choice([-1, 0, 1])) for k in terms}
+        return {"op": "extrema2", "fn": "approximate_puso_extrema" if spin else "approximate_pubo_extrema", "spin": spin, "kind": kind,
+                "labels": labels, "terms": {k: c * 2 ** 53 + d for k, (c, d) in big.items()}, "limbs": {repr(k): v for k, v in big.items()}}
     fn = rng.choice(sorted(FNS))
     spin, quad = FNS[fn]
     kinds = pure.SPIN_KINDS if spin else pure.BOOL_KINDS
@@ -64,9 +72,29 @@ def run_case(case, cid):
     rec["spin"] = case["spin"]
     try:
         terms = [(k, common.frac(v) / sc) for k, v in pure.items_of(snap)]       # what TLC sees is the unscaled model
-        d0 = common.common_den([common.frac(v) for _, v in terms])
-        rec["den"] = d0
-        rec["model"] = pure.enc_terms(terms, nm, d0)          # recorded before the call, so it is there if the call raises
+        if case["op"] != "extrema2":
+            d0 = common.common_den([common.frac(v) for _, v in terms])
+            rec["den"] = d0
+            rec["model"] = pure.enc_terms(terms, nm, d0)          # recorded before the call, so it is there if the call raises
+        if case["op"] == "extrema2":
+            B53 = 2 ** 53
+
+            def limbs(v):
+                f = common.frac(v)
+                if f.denominator != 1:
+                    raise common.Inexact("non-integer bound %r" % (v,))
+                c = (int(f) + B53 // 2) // B53
+                return [c, int(f) - c * B53]
+            rec["model"] = pure.enc_terms([(k, limbs(v)[1]) for k, v in terms], nm, 1)
+            rec["model_c"] = pure.enc_terms([(k, limbs(v)[0]) for k, v in terms], nm, 1)
+            with warnings.catch_warnings():
+                warnings.simplefilter("ignore")
+                lo, hi = getattr(utils, case["fn"])(model)
+            rec["lo2"], rec["hi2"] = limbs(lo), limbs(hi)
+            rec["K"] = sorted({nm(x) for k, _ in terms for x in k}, key=str)
+            rec["den"] = 1
+            rec["unchanged"] = pure.same(model, snap)
+            return rec
         with warnings.catch_warnings():
             warnings.simplefilter("ignore")
             if case["op"] in ("extrema", "bounds"):
